@@ -17,22 +17,22 @@ UA == UNION { FlatObjs(k, {Zero3}, B) : k \in KA }
 UB == UNION { FlatObjs(k, Box(B), B) : k \in KB }
 
 Init == ph = 1 /\ a \in UA /\ b = NoneObj /\ r = NoneObj
-Next == ph = 1 /\ ph' = 2 /\ a' = a /\ b' \in { x \in UB : InShard(a, x, SEED, NSHARD) } /\ r' = Inter(a, b')
+Next == ph = 1 /\ ph' = 2 /\ a' = a /\ b' \in { x \in UB : InShard(a, x, SEED, NSHARD) \/ (a.k = "Point" /\ x.k = "Point") } /\ r' = Inter(a, b')
 Spec == Init /\ [][Next]_vars
 
 
 \* ---- properties of the specification itself (the oracle is checked before it is used)
-AnalyticEqGeneric == ph = 2 => (Pointed(a, b) => Canon(InterAnalytic(a, b)) = Canon(InterGeneric(a, b)))
+AnalyticEqGeneric == ph = 2 => (Pointed(a, b) => SameSet(InterAnalytic(a, b), InterGeneric(a, b)))
 SaneGeneric       == ph = 2 => (Pointed(a, b) => GenericSane(a, b))
-Symmetric         == ph = 2 => Canon(Inter(a, b)) = Canon(Inter(b, a))
+Symmetric         == ph = 2 => SameSet(Inter(a, b), Inter(b, a))
 Typed             == ph = 2 => r.k \in DocKinds(a.k, b.k)
 ResultInBoth      == ph = 2 => (r.k # "None" => Subset(r, a) /\ Subset(r, b))
 Probes == { HP(p[1], p[2], p[3], 2) : p \in Box(2 * B) }
 ProbesAgree       == ph = 2 => \A P \in Probes : Mem(P, r) <=> (Mem(P, a) /\ Mem(P, b))
-Idempotent        == ph = 1 => Canon(Inter(a, a)) = Canon(a)
+Idempotent        == ph = 1 => SameSet(Inter(a, a), a)
 
 \* ---- case emission for the replayer
 Emit == ph = 1 \/ LET f == RelFlags(a, b, r)
                   IN (r.k = "None" /\ ~f[4] /\ ~InShard(b, a, SEED, NBORING))
-                     \/ PrintT(ToJson([a |-> a, b |-> b, exp |-> r, cls |-> f]))
+                     \/ PrintT(ToJson([a |-> a, b |-> b, exp |-> r, doc |-> DocKinds(a.k, b.k), cls |-> f]))
 =============================================================================
